@@ -983,6 +983,61 @@ func (cs *c20Case) submitRaw(pid int, raw []byte) {
 		now, res, rs, relay, cs.dump())
 }
 
+// entry delivers a channel update through one of the builder's own entry
+// points, bypassing the gossiper: kind "au" = Builder.ApplyChannelUpdate
+// (updates carried in onion failure messages), "ue" = Builder.UpdateEdge.
+func (cs *c20Case) entry(kind string, m *lnwire.ChannelUpdate1) {
+	raw := c20Wire(m)
+	if raw == nil {
+		cs.h.skipped++
+		return
+	}
+	dm, err := lnwire.ReadMessage(bytes.NewReader(raw), 0)
+	if err != nil {
+		cs.h.skipped++
+		return
+	}
+	u, ok := dm.(*lnwire.ChannelUpdate1)
+	if !ok {
+		cs.h.skipped++
+		return
+	}
+	desc, scid := cs.describe(u, raw)
+	cs.scids[scid] = true
+	id := cs.mid(raw)
+	now := time.Now().UnixNano()
+	res := ""
+	func() {
+		defer func() {
+			if r := recover(); r != nil {
+				res = "panic"
+			}
+		}()
+		if kind == "au" {
+			res = strconv.FormatBool(cs.builder.ApplyChannelUpdate(u))
+			return
+		}
+		pol, err := models.ChanEdgePolicyFromWire(u.ShortChannelID.ToUint64(), u)
+		if err == nil {
+			err = cs.builder.UpdateEdge(context.Background(), pol)
+		}
+		switch {
+		case err == nil:
+			res = "ok"
+		case graph.IsError(err, graph.ErrIgnored):
+			res = "e_ignored"
+		case graph.IsError(err, graph.ErrOutdated):
+			res = "e_outdated"
+		default:
+			res = "e_other"
+		}
+	}()
+	relay, rs := cs.settle()
+	parts := strings.SplitN(desc, " ", 2)
+	cs.h.pf("%s id=%d peer=0 %s now=%d => res=%s rs=%s relay=%s %s", kind, id, parts[1], now, res, rs,
+		relay, cs.dump())
+}
+
 // block announces a new best block to the gossiper (replays future messages).
 func (cs *c20Case) block(height uint32) {
 	now := time.Now().UnixNano()
@@ -1795,6 +1850,75 @@ func (h *c20) caseCacheMiss(variant int) {
 	})
 }
 
+// caseEntry: the builder's own entry points (ApplyChannelUpdate / UpdateEdge)
+// with newer, equal, older timestamps, wrong-direction signers, corrupted
+// signatures and fields, inconsistent fields, unknown and zombie channels.
+func (h *c20) caseEntry(variant int) {
+	c := h.stdChan(variant)
+	other := h.stdChan(variant + 1)
+	kind := []string{"au", "ue"}[variant%2]
+	h.runCase(c20CaseOpts{kind: "entry-" + kind}, func(cs *c20Case) {
+		cs.goodChain(c)
+		t0 := cs.nowSec() - 3000
+		mk := func(ts uint32, dir uint8, base uint32) *lnwire.ChannelUpdate1 {
+			u := c20DefaultUpd(ts, dir)
+			u.base = base
+			signer := c.n1
+			if dir == 1 {
+				signer = c.n2
+			}
+			return h.mkCU(c.scid, u, signer)
+		}
+		cs.entry(kind, mk(t0, 0, 1)) // channel unknown
+		cs.submit(1, h.mkCA(c))
+		if variant%4 < 2 {
+			cs.submit(1, mk(t0, 0, 1)) // stored through the gossiper first
+		} else {
+			cs.entry(kind, mk(t0, 0, 1))
+		}
+		cs.entry(kind, mk(t0, 0, 2))   // equal timestamp, different fee
+		cs.entry(kind, mk(t0-1, 0, 3)) // older
+		cs.entry(kind, mk(t0+1, 0, 4)) // newer
+		cs.entry(kind, mk(t0+1, 0, 5)) // equal again
+		cs.entry(kind, mk(t0+1, 0, 4)) // exact duplicate
+		// the other direction: equal to direction 0's timestamp is fine, then equal to its own
+		cs.entry(kind, mk(t0+1, 1, 6))
+		cs.entry(kind, mk(t0+1, 1, 7))
+		cs.entry(kind, mk(t0, 1, 8))
+		// wrong-direction signer, corrupted signature, corrupted field
+		w := mk(t0+10, 0, 9)
+		h.resignCU(w, c.n2)
+		cs.entry(kind, w)
+		f := mk(t0+11, 1, 10)
+		f.Signature = c20FlipSig(f.Signature, 17, 4)
+		cs.entry(kind, f)
+		g := mk(t0+12, 0, 11)
+		g.FeeRate++
+		cs.entry(kind, g)
+		// inconsistent fields, validly signed
+		bad := c20DefaultUpd(t0+13, 0)
+		bad.max = uint64(c.cap)*1000 + 1
+		cs.entry(kind, h.mkCU(c.scid, bad, c.n1))
+		bad = c20DefaultUpd(t0+14, 1)
+		bad.mf = 0
+		cs.entry(kind, h.mkCU(c.scid, bad, c.n2))
+		// zero timestamp, far future, foreign chain hash (validly signed)
+		cs.entry(kind, mk(0, 0, 12))
+		cs.entry(kind, mk(cs.nowSec()+40*24*3600, 1, 13))
+		x := mk(t0+20, 0, 14)
+		x.ChainHash[0] ^= 1
+		h.resignCU(x, c.n1)
+		cs.entry(kind, x)
+		// a zombie channel and a channel that is not in the graph
+		cs.zombie(other.scid, h.pub(other.n1), h.pub(other.n2))
+		cs.entry(kind, h.mkCU(other.scid, c20DefaultUpd(cs.nowSec()-5, 0), other.n1))
+		// the gossiper afterwards still sees consistent timestamps
+		cs.submit(2, mk(t0+1, 0, 15))
+		cs.submit(2, mk(t0+30, 0, 16))
+		cs.entry(kind, mk(t0+30, 0, 17))
+	})
+}
+
 // caseMisc: own-channel announcement, AssumeChannelValid.
 func (h *c20) caseOwn() {
 	h.runCase(c20CaseOpts{kind: "own"}, func(cs *c20Case) {
@@ -1895,10 +2019,15 @@ func (h *c20) caseRandom() {
 					u.min = u.max + uint64(r.Intn(2))
 				}
 				m := h.mkCU(c.scid, u, signer)
-				switch r.Intn(7) {
-				case 0:
+				if r.Intn(7) == 0 {
 					ms := h.cuMutations(c, m, signer, other)
-					cs.submit(pid, ms[r.Intn(len(ms))].m)
+					m = ms[r.Intn(len(ms))].m.(*lnwire.ChannelUpdate1)
+				}
+				switch r.Intn(8) {
+				case 0:
+					cs.entry("au", m)
+				case 1:
+					cs.entry("ue", m)
 				default:
 					cs.submit(pid, m)
 				}
@@ -2003,6 +2132,9 @@ func TestVerifC20(t *testing.T) {
 	}
 	for v := 0; v < rep(2, 6); v++ {
 		h.caseCacheMiss(v)
+	}
+	for v := 0; v < rep(4, 8); v++ {
+		h.caseEntry(v)
 	}
 	h.caseOwn()
 	for v := 0; v < rep(2, 3); v++ {
